@@ -392,7 +392,14 @@ def check(ctx):
     from . import c05, c06
     for dep, what in ((c05, "interchange, the primitive of every step (C05)"), (c06, "the monoidal normaliser that finishes the job (C06)")):
         sub = Ctx(dep.__name__.rsplit(".", 1)[1].upper(), ctx.model, ctx.tier)
-        dep.check(sub)
+        try:
+            dep.check(sub)
+        except AnalysisError:
+            bad = [o for o in sub.obs if not o.ok]
+            if bad:
+                ctx.ob("R07.4", "%s:dependency" % sub.prop, False, found=["%s %s" % (o.rule, o.construct) for o in bad][:4], required="every step of snake removal is taken by " + what, mod=RW, node=top,
+                       sig="dep-%s:%s" % (sub.prop, ",".join(sorted({o.rule for o in bad}))))
+            raise
         bad = [o for o in sub.obs if not o.ok]
         ctx.ob("R07.4", "%s:dependency" % sub.prop, not bad and not sub.broken and not sub.floor_failures, found=["%s %s" % (o.rule, o.construct) for o in bad][:4] or "all obligations discharged",
                required="every step of snake removal is taken by " + what, mod=RW, node=top, sig="dep-%s:%s" % (sub.prop, ",".join(sorted({o.rule for o in bad}))))
